@@ -52,6 +52,9 @@ Definition encode_aranges (le : bool) (sets : list arange_set) : list Z :=
 Definition as_unit_length (st : arange_set) : Z :=
   8 + zlen (as_pad st) + as_tuple_size st * (zlen (as_tuples st) + 1) + zlen (as_trail st).
 
+(* only the pair (0, 0) terminates a set: a range beginning at address 0 (0, len > 0) and a
+   zero-length tuple with a non-zero address (a, 0) are ordinary tuples, and the tuples that
+   follow them belong to the set *)
 Definition tuple_ok (n : nat) (t : Z * Z) : bool :=
   u_ok n (fst t) && u_ok n (snd t) && negb ((fst t =? 0) && (snd t =? 0)).
 
